@@ -16,10 +16,13 @@ import (
 	"path/filepath"
 	"regexp"
 	"runtime"
+	"runtime/pprof"
 	"sort"
 	"strconv"
 	"strings"
 	"sync"
+	"sync/atomic"
+	"syscall"
 	"time"
 
 	"github.com/resonatehq/resonate/verif/sim/k"
@@ -92,7 +95,27 @@ func cmdWorker(args []string) int {
 	enc := json.NewEncoder(out)
 	eng := k.EngineFor(*prop)
 	n := 0
+	if pf := os.Getenv("VERIF_PROF"); pf != "" {
+		f, _ := os.Create(pf)
+		_ = pprof.StartCPUProfile(f)
+		defer pprof.StopCPUProfile()
+	}
+	// resource limits: a run that needs more than this is a harness problem
+	_ = syscall.Setrlimit(syscall.RLIMIT_AS, &syscall.Rlimit{Cur: 6 << 30, Max: 6 << 30})
+	var curRun atomic.Int64
+	var curStart atomic.Int64
+	go func() {
+		for {
+			time.Sleep(time.Second)
+			if st := curStart.Load(); st > 0 && time.Now().UnixMilli()-st > 300_000 {
+				fmt.Fprintf(os.Stderr, "WATCHDOG: run %d of %s exceeded 300 s\n", curRun.Load(), *prop)
+				os.Exit(3)
+			}
+		}
+	}()
 	for run := *from; ; run += *stride {
+		curRun.Store(int64(run))
+		curStart.Store(time.Now().UnixMilli())
 		if *deadline > 0 && time.Now().UnixMilli() >= *deadline {
 			break
 		}
@@ -254,7 +277,7 @@ func loadKnown() []knownFinding {
 func matchKnown(known []knownFinding, prop string, fp string) *knownFinding {
 	for i := range known {
 		kf := &known[i]
-		if kf.Property != prop {
+		if !containsProp(kf.Property, prop) {
 			continue
 		}
 		if re, err := regexp.Compile(kf.Match); err == nil && re.MatchString(fp) {
@@ -262,6 +285,15 @@ func matchKnown(known []knownFinding, prop string, fp string) *knownFinding {
 		}
 	}
 	return nil
+}
+
+func containsProp(list, prop string) bool {
+	for _, p := range strings.Split(list, ",") {
+		if strings.TrimSpace(p) == prop {
+			return true
+		}
+	}
+	return false
 }
 
 type agg struct {
